@@ -22,6 +22,7 @@ RAISE_KINDS = {
 }
 KILL_STMT_KINDS = ("exit_before", "exit_after")
 KILL_COMMIT_KINDS = ("exit_before_commit", "exit_after_commit")
+RAISE_COMMIT_KIND = "raise_at_commit"  # the commit itself fails in the storage layer (e.g. 'database is locked')
 _STMT_MODES = tuple(RAISE_KINDS) + KILL_STMT_KINDS
 
 
@@ -112,6 +113,9 @@ class FaultConnection(real_sqlite3.Connection):
         PLAN.commit_calls += 1
         if PLAN.mode == "exit_before_commit" and (PLAN.k or 0) == j:
             os._exit(EXIT_PLANNED)
+        if PLAN.mode == RAISE_COMMIT_KIND and (PLAN.k or 0) == j and not PLAN.fired:
+            PLAN.fired = True
+            raise real_sqlite3.OperationalError("injected OperationalError at commit: database is locked")
         super().commit()
         PLAN.commits += 1
         if PLAN.mode == "exit_after_commit" and (PLAN.k or 0) == j:
